@@ -44,7 +44,7 @@ def Etag(name, kids=(), attrs=(), ws=True):
     return ["E", name, ws, [list(a) for a in attrs], list(kids)]
 
 
-LEAVES = [T("s"), T("q\"t'u"), ["N", 7], T("\u00e9\U0001F600 \u4e2d"), dep("leafdep"),
+LEAVES = [T("s"), T("q\"t'u"), ["N", 7], T("\u00e9\U0001F600 \u4e2d"), dep("leafdep"), ["D", "leafdep", "0.9", {}],
           ["XJ", dep("xdep")],
           ["XJ", Etag("p", [T("in-x"), dep("xtagdep")])],
           ["XJ", T("xs")],
@@ -63,7 +63,9 @@ PROP_VALUES = [None, True, False, 3, 2.5, "s", 'q"t', "it's", ["LIST", [1, "a", 
                {"a": 1, "b": ["LIST", [True]]}, ["JX", "window.fn"], "window.fn", "\u00e9\U0001F600",
                Etag("em", [T("e"), dep("tagpropdep")], [("id", "i")]),
                J("PropComp", [dep("comppropdep")], [("z", 1)]),
-               ["XJ", Etag("u", [dep("xpropdep")])], ["LIST", []], {}, -1, 0, ""]
+               ["XJ", Etag("u", [dep("xpropdep")])], ["LIST", []], {}, -1, 0, "",
+               {'k"q': 1, "sp ace": "v"}, ["FLT", "inf"], ["FLT", "-inf"], ["FLT", "nan"], 1e21, -2.5e-7,
+               ["LIST", [["FLT", "inf"], {"n": ["FLT", "nan"]}]]]
 
 
 # ------------------------------------------------------- expected expression tree
@@ -89,9 +91,11 @@ def expected_value(v):
         k = v[0] if v else None
         if k in ("LIST", "TUP"):
             return ("arr", [expected_value(x) for x in v[1]])
+        if k == "FLT":
+            return ("nan",) if v[1] == "nan" else ("num", float(v[1]))
         if k == "JX":
             return ("raw", v[1])
-        if k in ("E", "J", "XJ"):
+        if k in ("E", "ES", "J", "XJ"):
             return expected_node(v)
     raise ValueError(v)
 
@@ -107,7 +111,7 @@ def expected_node(spec):
         return None
     if k == "XJ":
         return expected_node(spec[1])
-    if k == "E":
+    if k in ("E", "ES"):
         _, name, ws, attrs, kids = spec
         props = [(a, ("str", v[1] if isinstance(v, list) else str(v))) for a, v in attrs]
         ch = [n for n in (expected_node(c) for c in kids) if n is not None]
@@ -129,12 +133,12 @@ def expected_deps(spec, acc=None):
         acc.append((spec[1], spec[2]))
     elif k == "XJ":
         expected_deps(spec[1], acc)
-    elif k == "E":
+    elif k in ("E", "ES"):
         for c in spec[4]:
             expected_deps(c, acc)
     elif k == "J":
         for _, v in spec[2]:
-            if isinstance(v, list) and v and v[0] in ("E", "J", "XJ", "D"):
+            if isinstance(v, list) and v and v[0] in ("E", "ES", "J", "XJ", "D"):
                 expected_deps(v, acc)
         for c in spec[3]:
             expected_deps(c, acc)
@@ -205,12 +209,12 @@ def nontrivial(spec):
 def walk_j(spec):
     yield spec
     k = spec[0]
-    if k == "E":
+    if k in ("E", "ES"):
         for c in spec[4]:
             yield from walk_j(c)
     elif k == "J":
         for _, v in spec[2]:
-            if isinstance(v, list) and v and v[0] in ("E", "J", "XJ", "D"):
+            if isinstance(v, list) and v and v[0] in ("E", "ES", "J", "XJ", "D"):
                 yield from walk_j(v)
         for c in spec[3]:
             yield from walk_j(c)
@@ -327,6 +331,29 @@ def fn_copy(ti):
     return (True, None, viols, 2)
 
 
+def fn_extend_str(text):
+    from htmltools import TagList
+    from htmltools._jsx import JSXTag
+    viols = []
+    ref = TagList("c0")
+    ref.extend(text)
+    x = JSXTag("Foo", "c0")
+    x.extend(text)
+    if list(x.children) != list(ref):
+        viols.append(("extend:str", f"JSXTag.extend({text!r}) gives children {list(x.children)!r}; the child-list rule "
+                      f"(TagList.extend) gives {list(ref)!r}", {}))
+    try:
+        res = x.tagify()
+        texts = [c for c in res.children if isinstance(c, str) or type(c).__name__ == "HTML"]
+        got = parse_expression(extract_expression(str(texts[0])))
+        want = ("el", ("comp", "Foo"), [], [("str", str(c)) for c in ref])
+        if got != want:
+            viols.append(("extend:str:expression", "expression does not mirror the children", {"observed": got, "expected": want}))
+    except Exception as e:
+        viols.append(("extend:str:raises", f"{type(e).__name__}: {e}", {}))
+    return (True, None, viols)
+
+
 def fn_allow(case):
     from htmltools._jsx import JSXTag, jsx_tag_create
     allowed, given, val = case
@@ -375,11 +402,34 @@ def plan(tier):
     out.append(dict(kind="space", name="conversion-sequences", fn=fn_seq, execs=n,
                     space=Prod(Const(list(range(len(SEQ_TREES)))), Seq(Const(CONV), 1, n)),
                     note=f"{len(SEQ_TREES)} components x all sequences of 1..{n} of {CONV}"))
+    ES = lambda name, kids=(), ws=True: ["ES", name, ws, [], list(kids)]
+    hosts = [lambda k: J("Foo", k), lambda k: ES("section", k), lambda k: ES("span", k, False),
+             lambda k: Etag("clipPath", k), lambda k: Etag("DIV", k), lambda k: Etag("foreignObject", k, [("viewBox", "0 0 1 1")])]
+    hleaves = [T("s"), dep("leafdep"), J("Inner", [T("ic"), dep("innerdep")], [("pp", ES("i", [dep("esprop")]))]),
+               ["XJ", ES("p", [dep("xesdep")])]]
+    ht = trees(Const(hleaves), hosts, 1, [2])
+    out.append(dict(kind="space", name="tag-subclasses-and-mixed-case-names", fn=fn_tree,
+                    space=Map(Prod(Const(KINDS[:3]), Seq(ht, 1, 1)), lambda kv: kv[0](kv[1])),
+                    note="components whose nested tags are instances of a user subclass of Tag, or have camelCase / upper-case "
+                         "names (SVG's clipPath, foreignObject): mirrored under their own names, nested components kept"))
+    sty = [{"color": "red", "margin": 0}, {"color": None, "margin": 0}, {}, {"fontSize": 2.5, "a-b": True},
+           {"o": {"nested": 1}, "l": ["LIST", [1, None]]}]
+    out.append(dict(kind="space", name="style-prop-given-as-dict", fn=fn_props,
+                    space=Prod(Prod(Const(["style"]), Const(sty)), Prod(Const(["p", "style"]), Const(sty + [None, "s"])),
+                               Const(["ctor", "append"])),
+                    note="the style prop given as a dict is written like any other dict (None values as null)"))
+    out.append(dict(kind="space", name="children-added-through-extend", fn=fn_props,
+                    space=Prod(pv, Const([("p", 1)]), Const(["extend-tuple", "extend-generator", "extend-one-by-one"])),
+                    note="children added with extend() of a tuple / a generator / one at a time around empty iterables"))
+    out.append(dict(kind="space", name="extend-with-a-bare-string", fn=fn_extend_str, space=Const(["hello world", "x", ""]),
+                    note="extend('hello world') follows the child-list rule: strings are kept whole"))
     names = ["p", "q", "r"]
     subsets = [list(c) for r in range(0, 4) for c in itertools.combinations(names, r)]
     out.append(dict(kind="space", name="allow-list", fn=fn_allow,
-                    space=Prod(Const([s for s in subsets if s]), Const(subsets), Const([1, None, 0, False, "", []])),
-                    note="allowedProps (non-empty subsets of {p,q,r}) x given props (all subsets) x 6 prop values incl. None"))
+                    space=Prod(Const(subsets), Const(subsets + [["key"], ["ref", "p"], ["children"]]),
+                               Const([1, None, 0, False, "", []])),
+                    note="declared allowedProps (every subset of {p,q,r}, the empty list included) x given props (all subsets, "
+                         "plus React's key / ref / children names) x 6 prop values incl. None"))
     out.append(dict(kind="space", name="copied-components", fn=fn_copy, space=Const(list(range(len(SEQ_TREES)))),
                     note="copy.copy(component), then props / children set on the copy"))
     return out
